@@ -219,15 +219,17 @@ CLAIMS = {
              "incl. OverflowError outside range(0x110000) and the RFC 3629 bytes given to PyUnicode_DecodeUTF8; __Pyx_PyUnicode_BuildFromAscii "
              "(loop invariants, termination). Python side and call sites: ConstantFolding.visit_FormattedValueNode replaces an f-string field "
              "by its value only for a unicode literal (not a bytes literal); the emitted call for an f-string field on an EXTERNAL typedef "
-             "passes the full value to a helper of that type (L3 call-site unit, helpers by contract). "
+             "passes the full value to a helper of that type (L3 call-site unit, helpers by contract); the kind handed to __Pyx_PyUnicode_Join "
+             "by the emitted f-string code covers every part's largest code point (L3 call-site unit L3join on three catalogue shapes: 'c', "
+             "width+'c', 'd'; join and formatting helpers by contract). "
              "BOUNDED stand-in (labelled, not counted as proved): CIntLike._parse_format, which decides which "
              "f-string specs reach these helpers and with which (type, width, padding), exhaustively over every spec of length <= 4 over a "
              "24-character alphabet: an accepted spec must mean under CPython's format() what the helper computes. "
              "Kernel: integer and character formatting helpers only.",
         note="Trusted: dv C front end, dv/pystr.py (contracts of PyUnicode_New/WRITE/DecodeLatin1/DecodeUTF8/FromOrdinal/Concat, "
              "PySequence_Repeat; allocation never fails), the closed forms of the digit tables (checked against the initialisers every run), z3. "
-             "Unverified: f-string node lowering (JoinedStrNode/FormattedValueNode choose helper, width, padding), %-format rewriting, "
-             "CDoubleToPyUnicode, str()/repr()/format() of objects, __Pyx_PyUnicode_Join, every format spec outside "
+             "Unverified: f-string node lowering beyond the catalogue shapes (JoinedStrNode/FormattedValueNode choose helper, width, padding), "
+             "%-format rewriting, CDoubleToPyUnicode, str()/repr()/format() of objects, the body of __Pyx_PyUnicode_Join (contract only), every format spec outside "
              "[0]width{d,o,x,X,c}; the quick tier covers int (d, x) + the character helpers, the thorough tier all of int/long/short/unsigned int.",
         ref="4 C18"),
     "C16": dict(
